@@ -85,9 +85,13 @@ class Ctx:
 
     def parse(self, rel) -> ast.Module:
         try:
-            return ast.parse(self.read(rel), filename=rel)
+            tree = ast.parse(self.read(rel), filename=rel)
         except SyntaxError as e:
             raise AnalysisError(f"{rel} does not parse: {e}")
+        if os.environ.get("FV_CANON", "1") != "0":
+            from . import normast
+            normast.canon_module(tree)
+        return tree
 
     # ---- recording
     def rule(self, rid, text):
@@ -236,6 +240,23 @@ def find_func(scope, name) -> Optional[ast.FunctionDef]:
         if isinstance(n, (ast.FunctionDef, ast.AsyncFunctionDef)) and n.name == name:
             return n
     return None
+
+
+def bind_call(call: ast.Call, fn, skip_first=False):
+    """{parameter name: argument expression} of `call` against fn's signature; None when the call cannot be bound statically (star args,
+    unknown keyword, too many positionals)"""
+    if fn is None or any(isinstance(a, ast.Starred) for a in call.args) or any(k.arg is None for k in call.keywords):
+        return None
+    params = [a.arg for a in fn.args.posonlyargs + fn.args.args][1 if skip_first else 0:]
+    allowed = set(params) | {a.arg for a in fn.args.kwonlyargs}
+    if len(call.args) > len(params):
+        return None
+    out = dict(zip(params, call.args))
+    for k in call.keywords:
+        if k.arg in out or (k.arg not in allowed and fn.args.kwarg is None):
+            return None
+        out[k.arg] = k.value
+    return out
 
 
 def need(x, what):
